@@ -3,17 +3,17 @@ import St4sd.Model.Repl
 # C03, text level, aggregator: where the path after a matched reference ends
 
 Lemmas about `Repl.aggScan` / `Repl.aggExpand` / `Repl.pathLen` (the single-pass substitution of the repaired
-`compile_component_aggregate`): the path suffix `(?:/[\w.*]+)+` that follows a matched reference stops at the
-first character that is neither `[\w.*]` nor `/`, and the text after it is scanned on its own.
+`compile_component_aggregate`): the path suffix `(?:/[\w.*+~@-]+)+` that follows a matched reference stops at the
+first character that is neither `[\w.*+~@-]` nor `/`, and the text after it is scanned on its own.
 -/
 namespace St4sd.Repl
 open St4sd.Str
 
-/-- a file path as the aggregator's pattern `(?:/[\w.*]+)+` reads it: `/seg/seg…` -/
+/-- a file path as the aggregator's pattern `(?:/[\w.*+~@-]+)+` reads it: `/seg/seg…` -/
 def pathOf (segs : List S) : S := segs.flatMap fun seg => '/' :: seg
-/-- every segment is a non-empty run of `[\w.*]` -/
+/-- every segment is a non-empty run of `[\w.*+~@-]` -/
 def goodSegs (segs : List S) : Prop := ∀ seg ∈ segs, seg ≠ [] ∧ seg.all isPathChar = true
-/-- a character that ends a path: neither `[\w.*]` nor `/` -/
+/-- a character that ends a path: neither `[\w.*+~@-]` nor `/` -/
 def endsPath (c : Char) : Bool := !isPathChar c && c != '/'
 /-- the text that follows: nothing, or it starts with a character that ends a path and is not a comma -/
 def plainTail (tail : S) : Prop := tail = [] ∨ ∃ c r, tail = c :: r ∧ endsPath c = true ∧ c ≠ ','
@@ -25,7 +25,7 @@ theorem pathOf_cons (seg : S) (segs : List S) : pathOf (seg :: segs) = '/' :: (s
 
 theorem slash_not_pathChar : isPathChar '/' = false := by decide
 
-/-- empty, or starts with a character outside `[\w.*]` -/
+/-- empty, or starts with a character outside `[\w.*+~@-]` -/
 def stops (t : S) : Prop := t = [] ∨ ∃ c r, t = c :: r ∧ isPathChar c = false
 
 theorem takeWhile_seg (seg t : S) (hseg : seg.all isPathChar = true) (ht : stops t) :
